@@ -58,8 +58,10 @@ def site_class(P, i):
     return t['k'] + ':' + path(t['c'])
 
 
-def _validate(traces, heap='3g'):
+def _validate(traces, heap='2g'):
     from harness import tlc
+    # many validators run side by side: keep each JVM small (the default would start one GC thread per core)
+    os.environ.setdefault('JAVA_TOOL_OPTIONS', '-XX:ParallelGCThreads=2 -XX:CICompilerCount=2')
     verd, st = tlc.run_traces({'traces': traces}, module='ScopeTrace', heap=heap)
     return verd, st
 
@@ -147,7 +149,7 @@ def _v_shard(args):
     res = {'n': 0, 'skipped': skipped, 'nodes': nnodes, 'scopes': sum(len(t['steps']) - 1 for t in traces), 'evals': 0,
            'clauses': {}, 'bad': [], 'tlc': [], 'samples': []}
     if traces:
-        verd, st = _validate([{k: v for k, v in t.items() if k != 'name'} for t in traces], heap='6g')
+        verd, st = _validate([{k: v for k, v in t.items() if k != 'name'} for t in traces], heap='4g')
 
         def keep(t):
             return {'mode': 'corpus', 'name': t['name']}
@@ -247,7 +249,7 @@ def run(ctx):
     if not os.path.exists(path):
         raise common.Machinery('TLC wrote no state dump')
     size = os.path.getsize(path)
-    nsh = 14 if size > (4 << 20) else 4
+    nsh = 12 if size > (4 << 20) else 4
     bounds = [size * k // nsh for k in range(nsh + 1)]
     g_args = [(path, bounds[k], bounds[k + 1], ctx.seed, k + 1, None) for k in range(nsh)]
     items = corpus_items(ctx)
@@ -255,10 +257,13 @@ def run(ctx):
     items.sort(key=lambda it: -len(it[1]))
     nv = 6 if ctx.quick else 14
     v_args = [(items[k::nv], 50 + k, ctx.seed) for k in range(nv) if items[k::nv]]
-    with mp.get_context('fork').Pool(14) as pool:
+    import time
+    t1 = time.time()
+    with mp.get_context('fork').Pool(8 if ctx.quick else 12) as pool:
         vres = pool.map_async(_v_shard, v_args, chunksize=1)
         gres = pool.map(_g_shard, g_args, chunksize=1)
         vres = vres.get()
+    ctx.extra['phase_s'] = {'model': r['wall_s'], 'record_and_validate': round(time.time() - t1, 1)}
     nstates = sum(x['states'] for x in gres)
     if nstates != r.get('distinct'):
         raise common.Machinery(f'state dump has {nstates} states, TLC reported {r.get("distinct")}')
@@ -319,8 +324,8 @@ def selftest(ctx):
     """Binding demonstration: corrupt one recorded field of an accepted trace; TLC must reject it naming the right clause."""
     from harness import c16_scope as H, c16_corpus as C
     P = {'sc': [{'kind': 'module', 'site': 0}, {'kind': 'function', 'site': 1}],
-         'st': [{'c': 1, 'k': 'def', 'n': 'p', 'ch': 2}, {'c': 2, 'k': 'default', 'n': 'u', 'ch': 0},
-                {'c': 2, 'k': 'param', 'n': 'u', 'ch': 0}, {'c': 2, 'k': 'load', 'n': 'p', 'ch': 0}]}
+         'st': [{'c': 1, 'k': 'def', 'n': 'p', 'ch': 2, 'w': 1}, {'c': 2, 'k': 'default', 'n': 'u', 'ch': 0, 'w': 1},
+                {'c': 2, 'k': 'param', 'n': 'u', 'ch': 0, 'w': 0}, {'c': 2, 'k': 'load', 'n': 'p', 'ch': 0, 'w': 1}]}
     good = H.record_program(P, 0, _fst(), _filt())
     good.update(id=1, mode='prog')
     cases = [(1, 'accepted as recorded', None, lambda t: None)]
